@@ -515,23 +515,48 @@ theorem root_window_unbinds_only_its_own (own : Owner) (beh : Behaviour) (hs : S
       Tickit.Bindings.Inv st1 ∧ st1.isIter = false ∧
       (∀ k, k ∉ r.keys → (liveAt st1.log k ↔ liveAt w.st.log k)) ∧
       (∀ k hh n fl occ, Ev.enter k hh n fl occ ∈ st1.log → Ev.enter k hh n fl occ ∈ w.st.log) := by
-  obtain ⟨st1, he, hlog, hlist, h1, _, hni, _, _, _⟩ := rootUnref_spec own beh hs h hi hr hlast fuel
+  obtain ⟨st1, he, hlog, hlist, h1, _, hni, _, _, _, _⟩ := rootUnref_spec own beh hs h hi hr hlast fuel
   refine ⟨st1, he, hlog, hlist, h1, hni, fun k hk => ?_, fun k hh n fl occ hm => ?_⟩
   · rw [hlog]
-    have : ∀ (l : List Nat), (∀ x ∈ l, x ≠ k) → (liveAt (l.map Ev.unbindReq ++ w.st.log) k ↔ liveAt w.st.log k) := by
-      intro l
-      induction l with
-      | nil => intro _; simp
-      | cons x xs ih =>
-        intro hx
-        simp only [List.map_cons, List.cons_append]
-        rw [liveAt_cons (by simp only [Ev.affects, ne_eq, Option.some.injEq]; exact hx x (List.mem_cons_self ..))]
-        exact ih (fun y hy => hx y (List.mem_cons_of_mem _ hy))
-    exact this _ (fun x hx e => hk (by rw [← e]; exact List.mem_reverse.1 hx))
+    exact liveAt_reqs _ _ _ (fun hm => hk (List.mem_reverse.1 hm))
   · rw [hlog] at hm
     rcases List.mem_append.1 hm with hm | hm
     · simp at hm
     · exact hm
+
+/-- **The application's handlers go on running.**  After the root window has gone, an occurrence of any event of the
+    terminal (the walker as the emitter calls it, holding its reference) is delivered exactly once to every binding of the
+    application's that was live for the event before the root window went and is still live when the occurrence ends, no
+    handler having claimed it: none of them was lost to the root window's unbinds. -/
+theorem app_bindings_run_after_root_window_left (own : Owner) (beh : Behaviour) (hs : Safe own beh) (w : WSt) (h : WInv own w)
+    (hi : RootIntact w) (r : Root) (hr : w.root = some r) (hlast : r.refs = 1) (fuel : Nat) :
+    ∃ st1, unbindAll Cfg.repaired own beh (fuel + 1) r.ids w.st = .ok st1 ∧
+      ∀ fuel' wf ev st' ret,
+        exec Cfg.repaired own beh fuel' (.runEvent wf ev) { st1 with refs := st1.refs + 1 } = .ok (st', ret) →
+        ∃ seg, st'.log = Ev.occEnd st1.nextOcc :: (seg ++ Ev.occBegin st1.nextOcc ev wf :: st1.log) ∧
+          ∀ k, k ∉ r.keys → evLive ev w.st.log k → evLive ev (seg ++ Ev.occBegin st1.nextOcc ev wf :: st1.log) k →
+            ¬ (wf = true ∧ ret ≠ 0) → (firesOf st1.nextOcc seg).count k = 1 := by
+  obtain ⟨st1, he, hlog, _, h1, hro1, hni, _, _, hn1, _⟩ := rootUnref_spec own beh hs h hi hr hlast fuel
+  refine ⟨st1, he, fun fuel' wf ev st' ret hex => ?_⟩
+  have h1' : Tickit.Bindings.Inv { st1 with refs := st1.refs + 1 } := h1.of_refs _ (by omega)
+  have hro1' : RefOk own { st1 with refs := st1.refs + 1 } := hro1.of_more_refs _ (by simp)
+  have hrefs : own.holdsRef = true →
+      b2n ({ st1 with refs := st1.refs + 1 } : St).userRef + ({ st1 with refs := st1.refs + 1 } : St).frozenRefs + 1 ≤
+        ({ st1 with refs := st1.refs + 1 } : St).refs := by
+    intro hh
+    have := hro1.2 hh
+    rw [hni] at this
+    simp only [b2n_false, Nat.add_zero] at this
+    simp only
+    omega
+  have hocc : 1 ≤ ({ st1 with refs := st1.refs + 1 } : St).nextOcc := by simp only; rw [hn1]; exact h.occ
+  obtain ⟨seg, hseg, hall⟩ := fire_exactly_once own beh hs fuel' wf ev _ st' ret h1' hro1' hrefs hocc hex
+  refine ⟨seg, hseg, fun k hk hl0 hl1 hncl => hall k ?_ hl1 hncl⟩
+  obtain ⟨hla, id, first, fl, hb⟩ := hl0
+  refine ⟨?_, id, first, fl, ?_⟩
+  · simp only; rw [hlog]
+    exact (liveAt_reqs _ _ _ (fun hm => hk (List.mem_reverse.1 hm))).2 hla
+  · simp only; rw [hlog]; exact List.mem_append_right _ hb
 
 /-- …and the whole `tickit_window_unref`: the root window is gone, the terminal has one reference less (or, if that was
     the last one, is destroyed with the usual notifications), never undefined behaviour. -/
